@@ -70,6 +70,16 @@ def own1(ctx, flavours):
             ok = bool(t and t['k'] == 'adt' and STRONG.match(t['p']) and F.ty_has_adt(fs[0]['ty'], '^' + re.escape(M.path) + '$'))
             why = 'Node { %s: %s }' % (fs[0]['name'], t['s'] if t else '?') if len(fs) == 1 else '%d fields' % len(fs)
         out.append(Obl('OWN1', fl + '::node::Node', nadt['span'] if nadt else '-', 'Node is one strong pointer to (key, value, cell<Adjacent>)', ok, why))
+        # what the allocation itself owns: nothing strong (a strong handle stored inside a node's own allocation -- a predecessor
+        # link, a cached edge, a parent pointer -- closes a cycle through the node whatever the lists hold)
+        if nadt and len(nadt['variants'][0]['fields']) == 1:
+            hits = []
+            for a in F.types[nadt['variants'][0]['fields'][0]['ty']].get('a', []):
+                _walk_owned(F, a, set(), ['Node.inner'], hits)
+            strong = [h for h in hits if h[0] == 'strong']
+            out.append(Obl('OWN1', fl + '::node::Node', nadt['span'], "the node's allocation owns no strong handle", not strong,
+                           'strong handle reachable via ' + ' -> '.join(strong[0][2]) + ' -> ' + strong[0][1] if strong else
+                           '%d weak reference path(s), all inside the adjacency lists' % len([h for h in hits if h[0] == 'weak'])))
         # WeakNode: one weak pointer to the same allocation type
         wadt = F.adts.get(fl + '::node::adjacent::WeakNode')
         ok = False
